@@ -151,6 +151,23 @@ func suiteFiles(c *ctx) {
 		})
 		c.emit("missing-write", "filesmisc", q("missing-folder-write"), q(r2), q("error"))
 	}
+	// the same migration name written twice in quick succession, the second text shorter than the first: whatever files
+	// exist afterwards must hold exactly header + one of the two texts (a later write replaces, never splices)
+	for k := 0; k < 3; k++ {
+		dir := filepath.Join(root, fmt.Sprintf("over%d", k))
+		os.MkdirAll(dir, 0755)
+		long := sqlize.NewSqlize(sqlize.WithMigrationFolder(dir))
+		long.FromString("CREATE TABLE a_long_table_name (id int, name varchar(64), created_at datetime); CREATE INDEX idx_name ON a_long_table_name(name);")
+		short := sqlize.NewSqlize(sqlize.WithMigrationFolder(dir))
+		short.FromString("CREATE TABLE t (a int);")
+		t1, t2 := long.StringUp(), short.StringUp()
+		d1, d2 := long.StringDown(), short.StringDown()
+		long.WriteFiles("same name")
+		short.WriteFiles("same name")
+		c.emit(fmt.Sprintf("over%d", k), "filesover", qs([]string{t1, t2, d1, d2}), listDir(dir))
+		c.count("overwrite_cases")
+		time.Sleep(350 * time.Millisecond)
+	}
 	// two writes within the same second whose names sort against the write order (recorded finding)
 	{
 		dir := filepath.Join(root, "fast")
